@@ -1,6 +1,7 @@
 package main
 
 import (
+	"go/types"
 	"fmt"
 	"go/token"
 	"sort"
@@ -21,6 +22,7 @@ func propC05(c *Ctx) propInfo {
 	c.codecPair("E5.codec-pair", "tlb.HashmapAugE", c.genericMethod("tlb", "HashmapAugE", "MarshalTLB"), c.genericMethod("tlb", "HashmapAugE", "UnmarshalTLB"), nil)
 	c.writeWidthPreconditions("tlb", "wallet")
 	c.labelCoversAllKeys()
+	c.distinctKeyProducers()
 	c.floor("E5.label-forms", 5)
 	c.floor("E10.dict-recursion", 6)
 	c.floor("E10.parallel-slices", 3)
@@ -519,4 +521,65 @@ func (c *Ctx) labelCoversAllKeys() {
 	c.check(okA || okB, R, "the node label is the prefix common to all keys of the node", cl.Pos(), map[bool]string{true: "second key selected by a minimising loop over all keys", false: "first/last key of a slice every producer keeps in bit order"}[okA],
 		"Hashmap.encodeMap derives the edge label from two fixed keys (first and last) although the key slice is not kept in bit order by its producers (NewHashmap/NewHashmapE store the caller's order, Put orders signed keys numerically): with keys {1, 0x80000000, 0x40000000} the entry 0x80000000 is encoded under key 0. "+whyA)
 	c.floor(R, 1)
+}
+
+// distinctKeyProducers: a Hashmap holds each key once (encodeMap assumes it: two equal keys never
+// split, and the leaf is reached with keys left over). Code inside package tlb that fills keys/values
+// directly either copies (a subset of) another dictionary's items - distinct by construction - or
+// goes through Put (which replaces an existing key), or guards the append with a seen-set lookup.
+func (c *Ctx) distinctKeyProducers() {
+	const R = "E10.dict-distinct-keys"
+	f := c.mustFn(R, "tlb", "ConfigParams.CloneKeepingSubsetOfKeys")
+	if f == nil {
+		return
+	}
+	okv := false
+	why := "no Hashmap literal found"
+	for _, m := range literalFields(f, "ConfigParams") {
+		for _, v := range m["Config.keys"] {
+			fromItems := derivesFrom(v, func(x ssa.Value) bool {
+				cl := callOf(x)
+				if cl == nil {
+					return false
+				}
+				fn := calleeFunc(&cl.Call)
+				return fn != nil && (fn.Name() == "Items" || fn.Name() == "Keys")
+			}, true)
+			fromRequest := false
+			for _, l := range leaves(v) {
+				if l == "#1" {
+					fromRequest = true
+				}
+			}
+			switch {
+			case fromItems && !fromRequestOnly(v):
+				okv = true
+			case fromRequest:
+				// appended from the request: needs a seen-set guard (comma-ok map lookup that skips duplicates)
+				guarded := false
+				allInstrs(f, func(b *ssa.BasicBlock, in ssa.Instruction) {
+					if lk, ok := in.(*ssa.Lookup); ok && lk.CommaOk {
+						if _, isMap := lk.X.Type().Underlying().(*types.Map); isMap {
+							if _, isLocal := lk.X.(*ssa.MakeMap); isLocal {
+								guarded = true
+							}
+						}
+					}
+				})
+				okv = guarded
+				why = "the keys are taken from the request list, which can repeat an id, and no seen-set lookup guards the append"
+			default:
+				why = "the appended keys come neither from the source dictionary's items nor from a de-duplicated request"
+			}
+		}
+	}
+	c.check(okv, R, "CloneKeepingSubsetOfKeys produces distinct keys", f.Pos(), "keys come from the source dictionary's Items() (distinct), filtered by the request", "ConfigParams.CloneKeepingSubsetOfKeys: "+why+": a request such as {15, 0, 15} yields a dictionary holding key 15 twice, which cannot be encoded")
+	c.floor(R, 1)
+}
+
+// fromRequestOnly: helper kept separate for readability: the value derives from parameter #1 and
+// from nothing else that is a dictionary item.
+func fromRequestOnly(v ssa.Value) bool {
+	ls := leaves(v)
+	return len(ls) == 1 && ls[0] == "#1"
 }
